@@ -23,6 +23,10 @@ def demo_cmd(mdir):
     if os.path.exists(os.path.join(mdir, "demo.bas")):
         stdin = os.path.join(mdir, "demo.stdin")
         return "cargo run --offline -q -p rusty_basic -- %s %s" % (os.path.join(mdir, "demo.bas"), ("< " + stdin) if os.path.exists(stdin) else "< /dev/null")
+    if os.path.exists(os.path.join(mdir, "demo.rs")) and "#[test]" in open(os.path.join(mdir, "demo.rs")).read():
+        # a library-level demonstration written as an integration test of rusty_pc
+        return ("mkdir -p rusty_pc/tests && cp %s rusty_pc/tests/seed_demo.rs && cargo test --offline -q -p rusty_pc --test seed_demo 2>&1 "
+                "| grep -v 'finished in\|^$\|^thread\|RUST_BACKTRACE' | sed 's/finished in.*//' ; rm -f rusty_pc/tests/seed_demo.rs; rmdir rusty_pc/tests 2>/dev/null; true") % os.path.join(mdir, "demo.rs")
     if os.path.exists(os.path.join(mdir, "demo.rs")):
         # a library-level demonstration: run it as an example of rusty_pc
         return ("mkdir -p rusty_pc/examples && cp %s rusty_pc/examples/seed_demo.rs && cargo run --offline -q -p rusty_pc --example seed_demo 2>&1; "
